@@ -190,3 +190,13 @@ Proof.
   - rewrite (identifier_agrees m (Hw m eq_refl)). destruct (identifier m); reflexivity.
   - reflexivity.
 Qed.
+
+(* ---- send: one write of the request frame; the port's output grows by exactly that frame, or (failing write) by
+   nothing and the write's error is the cause ---- *)
+Theorem send_agrees m port :
+  g_Client_send None m port = Val (None, port ++ [m]) /\
+  (forall c, (3 <= length m)%nat -> g_Client_send (Some c) m port = Val (Some c, port)).
+Proof.
+  split; [reflexivity|]. intros c H. unfold g_Client_send, g_port_write. cbv zeta.
+  unfold g_Message_Identifier. rewrite (g_index_z m 2) by lia. reflexivity.
+Qed.
